@@ -125,9 +125,11 @@ OVERRIDES = [
     (r'^c01_get_indent_contract$', dict(bounded='len <= 160; modular in long_indent, whose contract is checked for four sampled lengths only')),
     (r'^c28_get_list_shape$', dict(bounded='lists of at most 2 elements', functions=['get_list'])),
     (r'^c28_index_of$', dict(functions=['index_of'])),
-    (r'^c26_(slice_code|insert_code|insert_into|index_first|length_counts)', dict(bounded='the concrete string "äbc" (and four other literals), indices -5..=5',
+    (r'^c26_(slice_(whole|first|negative|empty|zero|far)|insert_(at|after|past|zero|minus|far|into)|index_first|length_counts)', dict(bounded='the concrete string "äbc" (and four other literals), seven concrete index pairs / indices',
         functions=['string.slice / insert / index / length (complete closure bodies, extracted ranges)'])),
     (r'^c29_number_', dict(functions=['Number::ceil', 'Number::floor', 'Number::round', 'Number::abs', 'Number::trunc'])),
+    (r'^c29_percentage', dict(bounded='four probe values')),
+    (r'^c29_(ceil|floor|round)_keeps_unit', dict(bounded='three probe values (2.5, -2.5, 7); the primitives are complete in number.rs')),
     (r'^c29_min_max_', dict(bounded='three / two concrete arguments (90px, 1in, 95px; 2, 3; 1px, 1s)')),
     (r'^c17_for_end_unit', dict(functions=['sass::SrcRange::evaluate (unit conversion of the end value, extracted range)'],
                                 bounded='seven concrete (value, unit, unit) triples')),
@@ -163,15 +165,20 @@ OVERRIDES = [
     (r'^c14_and_or_arm_', dict(bounded='left operand one representative per value kind; right operand true / null / number',
                                functions=['Operator::eval (and / or arms, extracted ranges)'])),
     (r'^c12_operator_cmp', dict(bounded='unit px only', kind='attempt', tier='thorough', timeout=900)),
+    (r'^c18_named_in_any_order$', dict(kind='attempt', tier='thorough', timeout=2400)),  # measured: runs out of memory (two removals from OrderMap<Name, _>)
+    (r'^c11_unitset_scale_to_power_of_unit_is_none$', dict(kind='attempt', tier='thorough', timeout=2400)),  # measured: > 900 s (BTreeMap in UnitSet::dimension)
     (r'^c11_numeric_cmp_', dict(bounded='13 representative ordered unit pairs, probe magnitudes 1 and 3')),
     (r'^c11_numeric_unitless_vs_percent', dict(bounded='concrete probe values')),
     (r'^c31_roundtrip_', dict(kind='attempt', tier='thorough', timeout=1800)),
     (r'^c31_rgba_to_hwba_in_range$', dict(kind='attempt', tier='thorough', timeout=1800)),
+    (r'^c31_hsla_to_hwba_in_range$', dict(kind='attempt', tier='thorough', timeout=1800)),  # measured: > 900 s
     (r'^c31_rgba_grey_to_hsla$', dict(kind='attempt', tier='thorough', timeout=1800)),
     (r'^c31_hwba_new_in_range$', dict(kind='attempt', tier='thorough', timeout=1800)),
     # did not finish in 300 s on the unchanged tree (measured twice, -j 12/14):
     # thorough-tier attempts, reported but never counted as proved
     (r'^c12_color_hsla_cmp_antisymmetric$', dict(kind='attempt', tier='thorough', timeout=1800)),
+    # the recursive selector structures (derived clone / == / drop through Box and Vec): > 15 min and > 5 GB each
+    (r'^c22_(selector_|pseudo_is|pseudo_not|pseudo_other|compound_not_)', dict(kind='attempt', tier='thorough', timeout=2400)),
     (r'^c12_color_(hwba|rgba)_hsla_eq_symmetric$', dict(kind='attempt', tier='thorough', timeout=1800)),  # measured: > 900 s
     (r'^c12_number_trichotomy$', dict(kind='attempt', tier='thorough', timeout=1800)),
     (r'^c12_value_eq_color_color$', dict(kind='attempt', tier='thorough', timeout=1800)),
@@ -208,7 +215,7 @@ FILE_ASSUMPTIONS = {
 
 _h_re = re.compile(r'^\s*fn\s+((?:c\d\d|cover|canary)_[A-Za-z0-9_]+)\s*\(\s*\)', re.M)
 _per_style_re = re.compile(r'^per_style!\((\w+),\s*(\w+),\s*(\w+),\s*(\w+)\);', re.M)
-_target_re = re.compile(r'^(?:target|left|pair|per_tag|per_kind|and_or|map_lit|arm_kind|index_case|if_case|fn_if_case|while_case|tail_case)!\((\w+),', re.M)
+_target_re = re.compile(r'^(?:target|left|pair|per_tag|per_kind|and_or|map_lit|arm_kind|index_case|if_case|fn_if_case|while_case|tail_case|slice_at|insert_at)!\((\w+),', re.M)
 _shape_re = re.compile(r'^shape!\((\w+),\s*(\w+),', re.M)
 _pair2_re = re.compile(r'^(?:arm_)?pair!\((c11_\w+),\s*(c11_\w+),', re.M)
 _mac_re = re.compile(r'^(?:per_\w+|gen_\w+)!\(([^;]*)\);', re.M)
